@@ -29,16 +29,20 @@ def r1(ctx, rep):
     params = [p["name"] for p in f["params"]]
     rep.check("dialect" in params and any("Option<Dialect>" in p["ty"] for p in f["params"] if p["name"] == "dialect"), "param",
               "compile_query must receive the option as `dialect: Option<Dialect>`", file=f["file"], line=f["l"], fn=f["path"])
+    # by role: the value given to Context::new, followed back to the `let` that resolves it (whatever that local is called)
+    import guards
+    par_ = guards.parents(f["body"])
+    news0 = [n for n in walk(f["body"]) if n.get("k") == "call" and show(n["f"]) == "Context::new" and n["a"]]
     loc = None
-    for st in f["body"]["s"]:
-        if st.get("k") == "local" and show(st["pat"]) == "dialect":
-            loc = st
+    if len(news0) == 1 and news0[0]["a"][0].get("k") == "path":
+        loc = guards.visible_def_nodes(par_, news0[0]["a"][0], news0[0]["a"][0]["p"])
+    opt_param = next((p["name"] for p in f["params"] if "Option<Dialect>" in p["ty"]), "dialect")
     if loc is None or loc["init"].get("k") != "if":
         rep.bad("shape", "compile_query must resolve the effective dialect in one `let dialect = if let Some(..) = dialect {..} else {..}`", file=f["file"], line=f["l"], fn=f["path"])
         return
     i = loc["init"]
     c = i["c"]
-    some_edge = c.get("k") == "let" and show(c["e"]) == "dialect" and pat_head(c["pat"]) == "Some"
+    some_edge = c.get("k") == "let" and show(c["e"]) == opt_param and pat_head(c["pat"]) == "Some"
     bound = show(c["pat"]["e"][0]) if some_edge and c["pat"].get("e") else None
     then_val = show(tail_expr(i["t"])) if tail_expr(i["t"]) is not None else show_stmts(i["t"])
     rep.check(some_edge and then_val == bound and len(i["t"]["s"]) == 1, "option-wins",
@@ -52,11 +56,13 @@ def r1(ctx, rep):
               file=f["file"], line=i["l"], fn=f["path"])
     # the resolved value reaches Context::new
     news = [n for n in walk(f["body"]) if n.get("k") == "call" and show(n["f"]) == "Context::new"]
-    rep.check(len(news) == 1 and show(news[0]["a"][0]) == "dialect", "reaches-context",
-              "Context::new must be built from the resolved `dialect`", file=f["file"], line=f["l"], fn=f["path"])
-    # no later re-assignment / shadowing of `dialect`
-    later = [st for st in f["body"]["s"] if st.get("k") == "local" and show(st["pat"]) == "dialect"]
-    rep.check(len(later) == 1, "single-resolution", "the effective dialect must be resolved once", file=f["file"], line=f["l"], fn=f["path"])
+    rep.check(len(news) == 1 and news[0]["a"][0].get("k") == "path" and guards.visible_def_nodes(par_, news[0]["a"][0], news[0]["a"][0]["p"]) is loc, "reaches-context",
+              "Context::new must be built from the resolved dialect", file=f["file"], line=f["l"], fn=f["path"])
+    # the resolved value is not re-bound between its resolution and Context::new
+    name_ = show(loc["pat"]).replace("mut ", "")
+    later = [st for st in f["body"]["s"] if st.get("k") == "local" and show(st["pat"]).replace("mut ", "") == name_]
+    reass = [n for n in walk(f["body"]) if n.get("k") == "assign" and show(n["lhs"]) == name_]
+    rep.check(len(later) == 1 and not reass and not loc["pat"].get("mut"), "single-resolution", "the effective dialect must be resolved once", file=f["file"], line=f["l"], fn=f["path"])
     # Context::new uses the same value for the handler and the enum
     cn = syn.fn("Context::new", crate="prqlc", file_suffix="sql/mod.rs")
     fields = {}
